@@ -44,6 +44,9 @@ impl<L: Language, N: Analysis<L>> EGraph<L, N> {
             let pc = self.pc_find(&self.refl_pc(c));
 
             self.handle_congruence(pc);
+            // the union above can deprecate the class that held this e-node before: its parents have to
+            // be re-canonicalised, as after every other union.
+            self.rebuild();
 
             let c_a = self.mk_syn_applied_id(c, fresh_to_old.clone());
             if CHECKS {
